@@ -619,3 +619,22 @@ package rsm
 //@ requires s.sessOf(e.ClientID) != nil ==> s.sessOf(e.ClientID).J()
 //@ modifies gCCHandled
 //@ ensures e.Type == pb.ConfigChangeEntry && result == nil ==> gCCHandled
+
+// ---------------------------------------------------------------- streamed chunks own their bytes (C14)
+// the block writer reuses its block buffer; a chunk handed to the sink may still be queued when
+// the next block is written, so its data must not live in that buffer
+//@ ghost var gLastChunkData int
+//@ func (cw *ChunkWriter) onNewChunk [C14]
+//@ trusted hands the chunk to the sink
+//@ ghostset gLastChunkData := ptr(chunk.Data)
+//@ func (cw *ChunkWriter) getChunk [C14]
+//@ trusted fills in the chunk's identification fields
+//@ func (cw *ChunkWriter) getHeader [C14]
+//@ trusted builds a fresh header buffer
+//@ ensures fresh(result) && len(result) > 0
+//@ func (cw *ChunkWriter) onNewBlock [C14]
+//@ noframe
+//@ nobounds
+//@ requires len(data) + len(crc) < 4611686018427387904
+//@ modifies gLastChunkData, cw.chunkID
+//@ ensures !(ptr(data) <= gLastChunkData && gLastChunkData < ptr(data) + cap(data))
